@@ -60,18 +60,30 @@ def run_case(ctx, case):
         node = rig.node
         # ---- configuration
         mac_kind = case["mac"]
+        assigned = None  # the bytes the assigned value stands for (a prefix for short values)
         if mac_kind == "int":
-            ble.mac = rng.getrandbits(48)
+            # also integers whose upper byte(s) are zero
+            v = rng.choice([rng.getrandbits(48), rng.getrandbits(40), rng.getrandbits(33), rng.getrandbits(16),
+                            rng.getrandbits(48) & 0x00FFFF00FFFF, 1, 0])
+            ble.mac = v
+            assigned = v.to_bytes(6, "little")
         elif mac_kind == "bytes6":
-            ble.mac = bytes(rng.getrandbits(8) for _ in range(6))
+            assigned = bytes(rng.choice([0, rng.getrandbits(8)]) if rng.random() < 0.3 else rng.getrandbits(8)
+                             for _ in range(6))
+            ble.mac = assigned if rng.random() < 0.5 else bytearray(assigned)
         elif mac_kind == "short":
-            ble.mac = bytes(rng.getrandbits(8) for _ in range(3))
+            assigned = bytes(rng.getrandbits(8) for _ in range(3))
+            ble.mac = assigned
         else:
             ble.mac = None
         mac = bytes(ble.mac)
         if len(mac) != 6:
             ctx.violation("mac-length", "mac attribute has %d bytes after assigning a %s value"
                           % (len(mac), mac_kind), case)
+            return
+        if assigned is not None and mac[:len(assigned)] != assigned:
+            ctx.violation("mac-not-as-assigned", "mac assigned as %s %s reads back as %s"
+                          % (mac_kind, assigned.hex(), mac.hex()), case)
             return
         name = None
         rejected_cfg = False
